@@ -6,7 +6,7 @@ package main
 // type {-,3,99}, direction {-,0,1}, stop {-,S}, trip descriptor {- | trip_id {-,T} x route
 // {-,R1,R2} x direction {-,0,1} x start_time {-,ok} x start_date {-,ok} x schedule_relationship {-,CANCELED,SCHEDULED}} = 23 436 selectors.
 // Alerts: every single selector; all ordered pairs over a 120-selector sub-alphabet that
-// contains every interaction class, in one alert and split over two alerts; thorough: all
+// contains every interaction class, in one alert and split over two alerts; alerts of 9..257 selectors (3 strides x 4 offsets over the 120; one alert or three); thorough: all
 // triples over 24 selectors and all pairs (one from the 120, one from all 7 884).
 // Oracle: a reference normaliser written from the statement (refAlert), compared entity by
 // entity for the per-selector part and as a set for the fall-back routes; output invariants
@@ -264,6 +264,20 @@ func init() {
 					}
 				}},
 			}
+			s = append(s, &Scenario{Name: "many-selectors", Bound: -1, Run: func(c *Ctx) {
+				// alerts of 9..257 selectors drawn from the 120 with three strides and four offsets, in
+				// one alert or dealt round-robin to three
+				n := []int{9, 17, 33, 65, 130, 257}[c.Free("selectors", 6)]
+				off := []int{0, 7, 40, 93}[c.Free("offset", 4)]
+				stride := []int{1, 7, 11}[c.Free("stride", 3)]
+				k := []int{1, 3}[c.Free("alerts", 2)]
+				alerts := make([][]selSpec, k)
+				for i := 0; i < n; i++ {
+					alerts[i%k] = append(alerts[i%k], c12Sub120[(off+i*stride)%120])
+				}
+				c.Witness("alert_with_many_selectors")
+				c12Check(c, alerts)
+			}})
 			if tier == "thorough" {
 				s = append(s, &Scenario{Name: "triples-over-120", Bound: -1, Run: func(c *Ctx) {
 					c12Check(c, [][]selSpec{{c12Sub120[c.Free("first", 120)], c12Sub120[c.Free("second", 120)], c12Sub120[c.Free("third", 120)]}})
